@@ -961,6 +961,16 @@ fn one_case(rep: &mut Report, cx: &mut Ctx, c: &Case, ans: &str) {
             }
         }
         for (place, tys) in &wanted {
+            if place == "<stdout>" && tys.len() > 1 {
+                // matcher of C03-main-several-types-one-stdout: no -o, two or more different non-html types,
+                // exit status 0: the reports are concatenated on one stream (second review, item 36)
+                rep.count("main.several_types_on_stdout");
+                if !rep.findings_seen.contains("C03-main-several-types-one-stdout") {
+                    rep.fail("oracle", Some("C03-main-several-types-one-stdout"),
+                        format!("{} different report types were requested ({}) without -o: they are written back to back to standard output ({} bytes), where no reader can take the stream for any one of them; the run exits 0", tys.len(), tys.join(", "), bin.stdout.len()),
+                        cj.clone());
+                }
+            }
             if place != "<stdout>" && tys.len() > 1 {
                 let pair = tys.iter().all(|t| t.starts_with("cobertura"));
                 rep.fail("oracle", if pair { Some("C03-main-cobertura-pair-same-file") } else { None },
